@@ -1,0 +1,84 @@
+//go:build verif
+
+package proxy
+
+import (
+	"net"
+
+	"github.com/go-logr/logr"
+
+	"go.minekube.com/gate/pkg/edition/java/netmc"
+	"go.minekube.com/gate/pkg/edition/java/proto/packet"
+)
+
+// Verification hooks for property C18 (keep-alive routing). Add-only, no logic:
+// constructors over caller-supplied connections and thin forwarding functions.
+
+// C18Player wraps a connectedPlayer built over a caller-supplied client connection.
+type C18Player struct{ p *connectedPlayer }
+
+// C18ServerConn wraps a serverConnection built by newServerConnection.
+type C18ServerConn struct{ sc *serverConnection }
+
+// C18PendingCapacity returns pendingKeepAliveCapacity.
+func C18PendingCapacity() int { return pendingKeepAliveCapacity }
+
+// C18NewPlayer constructs a bare connectedPlayer over client.
+func C18NewPlayer(client netmc.MinecraftConn) *C18Player {
+	return &C18Player{p: &connectedPlayer{MinecraftConn: client, log: logr.Discard()}}
+}
+
+// C18NewServerConn constructs a serverConnection through newServerConnection and
+// installs backend (nil-able) as its backend connection.
+func C18NewServerConn(pl *C18Player, name string, backend netmc.MinecraftConn) *C18ServerConn {
+	srv := newRegisteredServer(NewServerInfo(name, &net.TCPAddr{IP: net.IPv4(127, 0, 0, 1), Port: 25566}))
+	sc := newServerConnection(srv, nil, pl.p)
+	sc.connection = backend
+	return &C18ServerConn{sc: sc}
+}
+
+func c18sc(s *C18ServerConn) *serverConnection {
+	if s == nil {
+		return nil
+	}
+	return s.sc
+}
+
+// C18SetBackendConn replaces the backend connection (nil-able) under the connection's lock.
+func C18SetBackendConn(s *C18ServerConn, backend netmc.MinecraftConn) {
+	s.sc.mu.Lock()
+	s.sc.connection = backend
+	s.sc.mu.Unlock()
+}
+
+// C18SetConnectedServer forwards to connectedPlayer.setConnectedServer (s nil-able).
+func C18SetConnectedServer(pl *C18Player, s *C18ServerConn) { pl.p.setConnectedServer(c18sc(s)) }
+
+// C18SetInFlight forwards to connectedPlayer.setInFlightConnection (s nil-able).
+func C18SetInFlight(pl *C18Player, s *C18ServerConn) { pl.p.setInFlightConnection(c18sc(s)) }
+
+// C18Record forwards to recordBackendKeepAlive.
+func C18Record(s *C18ServerConn, id int64) {
+	recordBackendKeepAlive(s.sc, &packet.KeepAlive{RandomID: id})
+}
+
+// C18Consume forwards to consumePendingKeepAlive.
+func C18Consume(s *C18ServerConn, id int64) bool {
+	_, ok := consumePendingKeepAlive(s.sc, id)
+	return ok
+}
+
+// C18Send forwards to sendKeepAliveToBackend (s nil-able).
+func C18Send(s *C18ServerConn, pl *C18Player, id int64) bool {
+	return sendKeepAliveToBackend(c18sc(s), pl.p, &packet.KeepAlive{RandomID: id})
+}
+
+// C18Forward forwards to forwardKeepAlive.
+func C18Forward(pl *C18Player, id int64) {
+	forwardKeepAlive(&packet.KeepAlive{RandomID: id}, pl.p)
+}
+
+// C18ClientPlayHandle forwards to clientPlaySessionHandler.handleKeepAlive.
+func C18ClientPlayHandle(pl *C18Player, id int64) {
+	(&clientPlaySessionHandler{player: pl.p}).handleKeepAlive(&packet.KeepAlive{RandomID: id})
+}
